@@ -20,7 +20,7 @@
 EXTENDS YeeDefs
 
 CONSTANTS Mode,        \* "energy" | "reverse" | "linear" | "complex"
-          Variant,     \* "ok" | "curl_sign" | "shift" | "pec_normal" | "metric_primal" | "rev_nofactor" | "rev_noadj" | "cplx_quad"
+          Variant,     \* "ok" | "curl_sign" | "shift" | "pec_normal" | "metric_primal" | "rev_nofactor" | "rev_noadj" | "cplx_quad" | "lin_double"
           Family,      \* which boundary configurations: "sweep" | "mixed" | "full" | "list"
           List,        \* Family = "list": set of codes 1000000 shape + 10000 kx + 100 ky + kz (shape 1..3 = long axis)
           Steps,       \* forward steps per behaviour (energy / linear / complex), run length T (reverse)
